@@ -1,0 +1,45 @@
+//go:build verif
+
+package polynomials
+
+// Contracts for the deductive checker in /verif (comment-only; compiled only under the verif tag).
+//
+// Coefficients RE are elements of an abstract commutative ring ("ring").
+// horner(c, x, i) is the value of the polynomial with coefficients c[i:] at x in Horner form:
+//   horner(c, x, len(c)-1) = c[len(c)-1],   horner(c, x, i) = horner(c, x, i+1) * x + c[i].
+
+//@ ghost func horner(c []V, x V, i Int) V
+//@ theory horner
+//@ axiom HornerLast: forall c []V, x V :: len(c) > 0 ==> horner(c, x, len(c) - 1) == c[len(c) - 1]
+//@ axiom HornerStep: forall c []V, x V, i Int :: 0 <= i && i < len(c) - 1 ==> horner(c, x, i) == radd(rmul(horner(c, x, i + 1), x), c[i])
+//@ end
+
+//@ func (*Polynomial).Eval
+//@   property C20
+//@   bind RE ring, FiniteRing ringS
+//@   uses horner
+//@   nopanic
+//@   ensures len(p.coeffs) == 0 ==> result == rzero()
+//@   ensures len(p.coeffs) > 0 ==> result == horner(p.coeffs, at, 0)
+//@   loop for(i >= 0)
+//@     invariant -1 <= i && i <= len(p.coeffs) - 2
+//@     invariant out == horner(p.coeffs, at, i + 1)
+
+//@ func NewPolynomialRing
+//@   property C20
+//@   ensures (err == nil) == (ring != nil)
+//@   ensures err == nil ==> result != nil && result.ring == ring
+
+//@ func (*PolynomialRing).New
+//@   property C20
+//@   bind RE ring, FiniteRing ringS
+//@   nopanic
+//@   ensures len(coeffs) > 0 ==> ((err == nil) == (forall t int :: 0 <= t && t < len(coeffs) ==> !utils.IsNil(coeffs[t])))
+//@   ensures err == nil && len(coeffs) > 0 ==> result != nil && result.coeffs == coeffs
+//@   loop range(coeffs)
+//@     invariant forall t int :: 0 <= t && t < $i ==> !utils.IsNil(coeffs[t])
+
+//@ func (*Polynomial).Coefficients
+//@   property C20
+//@   purefn
+//@   ensures result == p.coeffs
